@@ -249,16 +249,64 @@ def expanded_text(f, expr: ast.expr) -> str:
 
 
 # --------------------------------------------------------------------------- guards
-def enclosing_tests(node: ast.AST, stop: Optional[ast.AST] = None) -> list[tuple[ast.expr, bool]]:
-    """(test, polarity) of every ``if``/``while``/ternary enclosing ``node`` up to ``stop``.
+def always_exits(stmts: list[ast.stmt]) -> bool:
+    """Every path through the statement list leaves it abruptly (return / raise / continue / break)."""
+    if not stmts:
+        return False
+    last = stmts[-1]
+    if isinstance(last, (ast.Return, ast.Raise, ast.Continue, ast.Break)):
+        return True
+    if isinstance(last, ast.If):
+        return always_exits(last.body) and always_exits(last.orelse)
+    if isinstance(last, ast.With):
+        return always_exits(last.body)
+    if isinstance(last, ast.Try):
+        return (always_exits(last.finalbody)) or (always_exits(last.body + last.orelse) and all(always_exits(h.body) for h in last.handlers))
+    return False
 
-    polarity True = node sits in the body (test true), False = in the orelse.
+
+def always_raises(stmts: list[ast.stmt]) -> bool:
+    """Every path through the statement list ends in ``raise`` (a rejection, not a skip)."""
+    if not stmts:
+        return False
+    last = stmts[-1]
+    if isinstance(last, ast.Raise):
+        return True
+    if isinstance(last, ast.If):
+        return always_raises(last.body) and always_raises(last.orelse)
+    if isinstance(last, ast.With):
+        return always_raises(last.body)
+    return False
+
+
+def enclosing_tests(node: ast.AST, stop: Optional[ast.AST] = None, guards: bool = True, rejections: bool = False) -> list[tuple[ast.expr, bool]]:
+    """(test, polarity) of every test whose outcome is known where ``node`` runs, up to ``stop``:
+    every ``if``/``while``/ternary enclosing it (polarity True = node sits in the body), and -
+    with ``guards`` - every earlier sibling guard clause ``if c: <always exits>`` (polarity False)
+    or ``if c: ... else: <always exits>`` (polarity True).  The two forms of one decision,
+    nesting and early exit, therefore give the same answer.  Guard clauses that REJECT (every
+    path raises) are left out unless ``rejections``: they do not decide whether ``node`` runs in
+    an execution that completes.
     """
     out = []
     child = node
     for anc in ancestors(node):
         if anc is stop:
             break
+        if guards:
+            for fld in ("body", "orelse", "finalbody"):
+                lst = getattr(anc, fld, None)
+                if isinstance(lst, list) and any(child is s for s in lst):
+                    for sib in lst:
+                        if sib is child:
+                            break
+                        if isinstance(sib, ast.If):
+                            if always_exits(sib.body) and not always_exits(sib.orelse):
+                                if rejections or not always_raises(sib.body):
+                                    out.append((sib.test, False))
+                            elif sib.orelse and always_exits(sib.orelse) and not always_exits(sib.body):
+                                if rejections or not always_raises(sib.orelse):
+                                    out.append((sib.test, True))
         if isinstance(anc, (ast.If, ast.While)):
             if any(child is s for s in anc.body):
                 out.append((anc.test, True))
